@@ -86,6 +86,8 @@ class Repo(object):
         for m in self.modules.values():
             self._index(m)
         self._param_types = None
+        self._ltypes = {}
+        self._rcache = {}
 
     # ------------------------------------------------------------------ loading
     @classmethod
@@ -255,6 +257,8 @@ class Repo(object):
     def local_types(self, f):
         """var name -> ClassInfo for `v = Class(...)` locals, `self`, and parameters whose class
         is known from the actual arguments at the call sites."""
+        if id(f) in self._ltypes:
+            return self._ltypes[id(f)][1]
         ty = {}
         if f.cls is not None and f.params and f.params[0] == 'self':
             ty['self'] = f.cls
@@ -266,6 +270,7 @@ class Repo(object):
                     ty[n.targets[0].id] = r
         for p, c in self.param_types().get(f.where, {}).items():
             ty.setdefault(p, c)
+        self._ltypes[id(f)] = (f, ty)
         return ty
 
     def param_types(self):
@@ -348,11 +353,18 @@ class Repo(object):
 
     def resolve_call(self, f, call):
         """-> (callee FuncInfo, kind, bound {param: arg expr}) or None for calls outside the repo."""
+        k = (id(f), id(call))
+        hit = self._rcache.get(k)
+        if hit is not None and hit[0] is call:
+            return hit[1]
         r = self._resolve(f, call, self.local_types(f))
         if r is None:
-            return None
-        callee, kind, args, kws = r
-        return callee, kind, bind(callee, kind, args, kws)
+            out = None
+        else:
+            callee, kind, args, kws = r
+            out = (callee, kind, bind(callee, kind, args, kws))
+        self._rcache[k] = (call, out)
+        return out
 
     def resolve_call_all(self, f, call):
         """Like resolve_call but returns every candidate when the receiver is a base class."""
@@ -382,7 +394,8 @@ class Repo(object):
                 walk(c)
                 if isinstance(c, ast.Call):
                     out.append(c)
-        walk(f.node)
+        for st in f.node.body:
+            walk(ast.Module(body=[st], type_ignores=[]))
         out.sort(key=lambda c: (c.lineno, c.col_offset))
         return out
 
